@@ -574,4 +574,358 @@ theorem fileLoop_replay (padding : Nat) (path : String) (text : Bytes) (items : 
           cases hr
           rfl
 
+theorem lit_append_flat (s : String) : lit s = flat (lits s) := (flat_lits s).symm
+
+theorem flat_renderAccrualT (a : AccrualT) : flat (renderAccrualT a) = renderAccrual a.bytes := by
+  have e : lit "@accrue " = flat (lits "@accrue") ++ [32] := by decide
+  simp only [renderAccrualT, renderAccrual, AccrualT.bytes, flat_append, flat_cons, flat_nil, e, lit_space, lit_nl]
+  simp [tk]
+
+theorem flat_renderPerformanceT (ts : List (List Tok)) : flat (renderPerformanceT ts) = renderPerformance (ts.map flat) := by
+  have e : lit "@performance(" = flat (lits "@performance") ++ [40] := by decide
+  have e2 : lit ")\n" = [41, 10] := by decide
+  simp only [renderPerformanceT, renderPerformance, flat_append, flat_cons, flat_nil, e, e2, flat_joinCommaT]
+  simp [tk]
+
+theorem flat_renderBookingsT (padding : Nat) (bs : List BookingT) (hc : ∀ b ∈ bs, b.canon) :
+    flat (renderBookingsT padding bs) = ((bs.map BookingT.bytes).map (renderBooking padding)).flatten := by
+  induction bs with
+  | nil => rfl
+  | cons b rest ih =>
+    have hb := hc b List.mem_cons_self
+    have := flat_renderBookingT padding b hb.1 hb.2.1 hb.2.2.1
+    simp only [renderBookingsT, flat_append, flat_cons, List.map_cons, List.flatten_cons] at this ⊢
+    rw [ih (fun x hx => hc x (List.mem_cons_of_mem _ hx)), ← this]
+    simp
+
+theorem flat_renderBalanceT (b : BalanceT) : flat (renderBalanceT b) = renderBalance b.bytes := by
+  simp only [renderBalanceT, renderBalance, BalanceT.bytes, flat_append, flat_cons, lit_space]
+  simp [tk]
+
+theorem flat_renderBalancesT (bs : List BalanceT) :
+    flat (renderBalancesT bs) = ((bs.map BalanceT.bytes).map fun b => renderBalance b ++ lit "\n").flatten := by
+  induction bs with
+  | nil => rfl
+  | cons b rest ih =>
+    simp only [renderBalancesT, flat_append, flat_cons, List.map_cons, List.flatten_cons, flat_renderBalanceT, ih, lit_nl]
+    simp [tk]
+
+/-- the bytes of the token-level rendering are what `renderDir` prints -/
+theorem flat_renderT (padding : Nat) (v : DirT) (hc : v.canon) : flat (renderT padding v) = renderDir padding v.bytes := by
+  cases v with
+  | transaction aT pT d desc bs =>
+    obtain ⟨_, _, _, _, hb⟩ := hc
+    have e1 : lit " \"" = [32, 34] := by decide
+    have e2 : lit "\"" = [34] := by decide
+    simp only [renderT, renderDir, DirT.bytes, flat_append, flat_cons, flat_renderBookingsT padding bs hb, e1, e2, lit_nl]
+    cases aT <;> cases pT <;> simp [flat_renderAccrualT, flat_renderPerformanceT, tk]
+  | «open» d a => simp [renderT, renderDir, DirT.bytes, flat_lits]
+  | close d a => simp [renderT, renderDir, DirT.bytes, flat_lits]
+  | price d c p t => simp [renderT, renderDir, DirT.bytes, flat_lits, lit_space, tk]
+  | «include» p =>
+    have e2 : lit "\"" = [34] := by decide
+    simp [renderT, renderDir, DirT.bytes, flat_lits, e2, tk]
+  | assertion d bs =>
+    match bs with
+    | [] => simp [renderT, renderDir, DirT.bytes, flat_lits, renderBalancesT, lit_nl, tk]
+    | [b] =>
+      have e : lit " balance " = lit " balance" ++ [32] := by decide
+      simp [renderT, renderDir, DirT.bytes, flat_lits, flat_renderBalanceT, lit_space, e]
+    | b1 :: b2 :: rest =>
+      simp only [renderT, renderDir, DirT.bytes, flat_append, flat_cons, flat_lits, flat_renderBalancesT, lit_nl, List.map_cons]
+      simp [tk]
+
+theorem Canon.nil : Canon [] := by intro t h; cases h
+theorem Canon.append {a b : List Tok} (h1 : Canon a) (h2 : Canon b) : Canon (a ++ b) := by
+  intro x hx
+  rcases List.mem_append.mp hx with h | h
+  · exact h1 x h
+  · exact h2 x h
+theorem Canon.cons {t : Tok} {c : List Tok} (h1 : t.canon) (h2 : Canon c) : Canon (t :: c) := by
+  intro x hx
+  rcases List.mem_cons.mp hx with h | h
+  · rw [h]; exact h1
+  · exact h2 x h
+theorem Canon.left {a b : List Tok} (h : Canon (a ++ b)) : Canon a := fun t ht => h t (List.mem_append_left _ ht)
+theorem Canon.right {a b : List Tok} (h : Canon (a ++ b)) : Canon b := fun t ht => h t (List.mem_append_right _ ht)
+
+theorem canon_lits (s : String) (h : ∀ c ∈ s.toList, c.toNat < 128) : Canon (lits s) := by
+  intro t ht
+  simp only [lits, List.mem_map] at ht
+  obtain ⟨c, hc, rfl⟩ := ht
+  exact tk_canon (h c hc)
+
+theorem canon_spacesT (n : Nat) : Canon (spacesT n) := by
+  intro t ht
+  simp only [spacesT, List.mem_replicate] at ht
+  rw [ht.2]; exact tk_canon (by decide)
+
+theorem c32 : (tk 32).canon := tk_canon (by decide)
+theorem c10 : (tk 10).canon := tk_canon (by decide)
+theorem c34 : (tk 34).canon := tk_canon (by decide)
+theorem c40 : (tk 40).canon := tk_canon (by decide)
+theorem c41 : (tk 41).canon := tk_canon (by decide)
+theorem c44 : (tk 44).canon := tk_canon (by decide)
+
+theorem canon_append_iff {a b : List Tok} : Canon (a ++ b) ↔ Canon a ∧ Canon b :=
+  ⟨fun h => ⟨h.left, h.right⟩, fun h => h.1.append h.2⟩
+theorem canon_cons_iff {t : Tok} {c : List Tok} : Canon (t :: c) ↔ t.canon ∧ Canon c :=
+  ⟨fun h => ⟨h t List.mem_cons_self, fun x hx => h x (List.mem_cons_of_mem _ hx)⟩, fun h => Canon.cons h.1 h.2⟩
+theorem canon_nil_iff : Canon [] ↔ True := ⟨fun _ => trivial, fun _ => Canon.nil⟩
+
+theorem canon_joinCommaT (ts : List (List Tok)) (h : ∀ t ∈ ts, Canon t) : Canon (joinCommaT ts) := by
+  match ts with
+  | [] => exact Canon.nil
+  | [a] => simpa [joinCommaT] using h a (by simp)
+  | a :: b :: rest =>
+    have ih := canon_joinCommaT (b :: rest) (fun t ht => h t (by simp [ht]))
+    simp only [joinCommaT, canon_append_iff, canon_cons_iff]
+    exact ⟨h a (by simp), c44, ih⟩
+
+theorem canon_renderBookingsT (padding : Nat) (bs : List BookingT) (h : ∀ b ∈ bs, b.canon) : Canon (renderBookingsT padding bs) := by
+  induction bs with
+  | nil => exact Canon.nil
+  | cons b rest ih =>
+    obtain ⟨h1, h2, h3, h4⟩ := h b List.mem_cons_self
+    have ih' := ih (fun x hx => h x (List.mem_cons_of_mem _ hx))
+    simp only [renderBookingsT, renderBookingT, canon_append_iff, canon_cons_iff]
+    simp [h1, h2, h3, h4, c32, c10, ih', canon_spacesT]
+
+theorem canon_renderBalanceT (b : BalanceT) (h : b.canon) : Canon (renderBalanceT b) := by
+  obtain ⟨h1, h2, h3⟩ := h
+  simp only [renderBalanceT, canon_append_iff, canon_cons_iff]
+  simp [h1, h2, h3, c32]
+
+theorem canon_renderBalancesT (bs : List BalanceT) (h : ∀ b ∈ bs, b.canon) : Canon (renderBalancesT bs) := by
+  induction bs with
+  | nil => exact Canon.nil
+  | cons b rest ih =>
+    simp only [renderBalancesT, canon_append_iff, canon_cons_iff]
+    exact ⟨canon_renderBalanceT b (h b List.mem_cons_self), c10, ih (fun x hx => h x (List.mem_cons_of_mem _ hx))⟩
+
+theorem canon_renderT (padding : Nat) (v : DirT) (hc : v.canon) : Canon (renderT padding v) := by
+  cases v with
+  | transaction aT pT d desc bs =>
+    obtain ⟨ha, hp, hd, hdesc, hb⟩ := hc
+    have hB := canon_renderBookingsT padding bs hb
+    cases aT with
+    | none =>
+      cases pT with
+      | none => simp [renderT, canon_append_iff, canon_cons_iff, hd, hdesc, hB, c32, c34, c10, canon_nil_iff]
+      | some ts =>
+        have hJ := canon_joinCommaT ts (hp ts rfl)
+        simp [renderT, renderPerformanceT, canon_append_iff, canon_cons_iff, hd, hdesc, hB, c32, c34, c10, c40, c41, hJ,
+          canon_lits "@performance" (by decide), canon_nil_iff]
+    | some a =>
+      obtain ⟨a1, a2, a3, a4⟩ := ha a rfl
+      cases pT with
+      | none =>
+        simp [renderT, renderAccrualT, canon_append_iff, canon_cons_iff, hd, hdesc, hB, c32, c34, c10, a1, a2, a3, a4,
+          canon_lits "@accrue" (by decide), canon_nil_iff]
+      | some ts =>
+        have hJ := canon_joinCommaT ts (hp ts rfl)
+        simp [renderT, renderAccrualT, renderPerformanceT, canon_append_iff, canon_cons_iff, hd, hdesc, hB, c32, c34, c10, c40,
+          c41, hJ, a1, a2, a3, a4, canon_lits "@accrue" (by decide), canon_lits "@performance" (by decide), canon_nil_iff]
+  | «open» d a => simp [renderT, canon_append_iff, hc.1, hc.2, canon_lits " open " (by decide)]
+  | close d a => simp [renderT, canon_append_iff, hc.1, hc.2, canon_lits " close " (by decide)]
+  | price d c p t =>
+    obtain ⟨h1, h2, h3, h4⟩ := hc
+    simp [renderT, canon_append_iff, canon_cons_iff, h1, h2, h3, h4, c32, canon_lits " price " (by decide)]
+  | «include» p =>
+    have : Canon p := hc
+    simp [renderT, canon_append_iff, canon_cons_iff, this, c34, canon_lits "include \"" (by decide), canon_nil_iff]
+  | assertion d bs =>
+    obtain ⟨hd, hb⟩ := hc
+    match bs with
+    | [] => simp [renderT, renderBalancesT, canon_append_iff, canon_cons_iff, hd, c10, canon_lits " balance" (by decide), canon_nil_iff]
+    | [b] =>
+      have := canon_renderBalanceT b (hb b (by simp))
+      simp [renderT, canon_append_iff, hd, this, canon_lits " balance " (by decide)]
+    | b1 :: b2 :: rest =>
+      have := canon_renderBalancesT (b1 :: b2 :: rest) hb
+      simp [renderT, canon_append_iff, canon_cons_iff, hd, this, c10, canon_lits " balance" (by decide)]
+
+theorem items_canon {text : Bytes} {off : Nat} {items : List Item} (padding : Nat) (h : ItemsOK text off items) :
+    Canon (outToks padding items) := by
+  induction items generalizing off with
+  | nil => exact Canon.nil
+  | cons i rest ih =>
+    cases i with
+    | gap c w nl =>
+      unfold ItemsOK at h
+      obtain ⟨_, _, _, _, _, hc, _, _, hrest⟩ := h
+      simp only [outToks, Item.out]
+      exact hc.append (ih hrest)
+    | dir D d v w nl =>
+      unfold ItemsOK at h
+      obtain ⟨_, _, _, vcan, _, _, _, _, cr, _, hrest⟩ := h
+      simp only [outToks, Item.out]
+      exact ((canon_renderT padding v vcan).append cr).append (ih hrest)
+
+/-- the views of the directives of a run -/
+theorem items_views {text : Bytes} {off : Nat} {items : List Item} (h : ItemsOK text off items) :
+    (dirsOf items).mapM (viewDirective text) = some ((viewsOf items).map DirT.bytes) := by
+  induction items generalizing off with
+  | nil => rfl
+  | cons i rest ih =>
+    cases i with
+    | gap c w nl =>
+      unfold ItemsOK at h
+      exact ih h.2.2.2.2.2.2.2.2
+    | dir D d v w nl =>
+      unfold ItemsOK at h
+      obtain ⟨_, _, _, _, vview, _, _, _, _, _, hrest⟩ := h
+      simp [dirsOf, viewsOf, List.mapM_cons, vview, ih hrest]
+
+/-- the padding `Printer.Initialize` computes, from the views -/
+def padOf (vs : List DirV) : Nat := vs.foldl (fun m v => max m (paddingV v)) 0
+
+theorem items_padding {text : Bytes} {off : Nat} {items : List Item} (h : ItemsOK text off items) :
+    initPadding text (dirsOf items) = some (padOf ((viewsOf items).map DirT.bytes)) := by
+  simp [initPadding, items_views h, padOf]
+
+/-- the gaps of a run: the text between its directives, starting with the pending piece `pre` -/
+def gapBytes : List UInt8 → List Item → List (List UInt8)
+  | pre, [] => [pre]
+  | pre, .gap c w nl :: rest => gapBytes (pre ++ flat (c ++ (w ++ nl))) rest
+  | pre, .dir _ _ _ w nl :: rest => pre :: gapBytes (flat (w ++ nl)) rest
+
+theorem items_format {text : Bytes} {padding : Nat} {items : List Item} {off : Nat}
+    (hG : Good text ⟨off, origToks items⟩) (h : ItemsOK text off items) (pos : Nat) (hpos : pos ≤ off) :
+    formatLoop text padding pos (dirsOf items) = some (slice text pos off ++ flat (outToks padding items)) ∧
+    gapsOf text pos ((dirsOf items).map (·.range)) = gapBytes (slice text pos off) items := by
+  induction items generalizing off pos with
+  | nil =>
+    have e := hG.eof (by simp [atEOF, origToks])
+    simp only at e
+    simp [dirsOf, formatLoop, outToks, sliceChecked_some (Nat.le_trans hpos hG.le) (Nat.le_refl _), gapsOf, gapBytes, e]
+  | cons i rest ih =>
+    cases i with
+    | gap c w nl =>
+      unfold ItemsOK at h
+      obtain ⟨_, _, _, _, _, _, _, _, hrest⟩ := h
+      have e : origToks (.gap c w nl :: rest) = (c ++ (w ++ nl)) ++ origToks rest := by simp [origToks, Item.orig]
+      rw [e] at hG
+      obtain ⟨ex, G2⟩ := hG.step
+      have hs : slice text off (off + wsum (c ++ (w ++ nl))) = flat (c ++ (w ++ nl)) := by
+        have := (hG.consumed (consumed_mk off (c ++ (w ++ nl)) (origToks rest))).2
+        simpa using this
+      have := ih G2 hrest pos (by omega)
+      rw [slice_append text hpos (Nat.le_add_right off _), hs] at this
+      constructor
+      · simp only [dirsOf, outToks, Item.out, flat_append]
+        rw [this.1]
+        simp [flat_append]
+      · simp only [dirsOf, gapBytes]
+        rw [this.2]
+    | dir D d v w nl =>
+      unfold ItemsOK at h
+      obtain ⟨hrange, hDne, vok, vcan, vview, _, _, _, _, _, hrest⟩ := h
+      have e : origToks (.dir D d v w nl :: rest) = D ++ ((w ++ nl) ++ origToks rest) := by simp [origToks, Item.orig]
+      rw [e] at hG
+      obtain ⟨_, G1⟩ := hG.step
+      obtain ⟨_, G2⟩ := G1.step
+      have hs : slice text (off + wsum D) (off + wsum D + wsum (w ++ nl)) = flat (w ++ nl) := by
+        have := (G1.consumed (consumed_mk (off + wsum D) (w ++ nl) (origToks rest))).2
+        simpa using this
+      have := ih G2 hrest (off + wsum D) (Nat.le_add_right _ _)
+      rw [hs] at this
+      have hprint : printDirective text padding d = some (flat (renderT padding v)) := by
+        simp [printDirective, vview, flat_renderT padding v vcan]
+      constructor
+      · simp only [dirsOf, formatLoop, hrange, Option.bind_eq_bind]
+        rw [sliceChecked_some hpos hG.le, hprint, this.1]
+        simp [outToks, Item.out, flat_append]
+      · simp only [dirsOf, List.map_cons, gapsOf, hrange, gapBytes]
+        rw [this.2]
+
+theorem Rendered.facts {padding : Nat} {items items2 : List Item} (h : Rendered padding items items2) :
+    origToks items2 = outToks padding items ∧ outToks padding items2 = outToks padding items ∧
+    viewsOf items2 = viewsOf items ∧ ∀ pre, gapBytes pre items2 = gapBytes pre items := by
+  induction h with
+  | nil => exact ⟨rfl, rfl, rfl, fun _ => rfl⟩
+  | gap c w nl hr ih =>
+    obtain ⟨i1, i2, i3, i4⟩ := ih
+    exact ⟨by simp [origToks, outToks, Item.orig, Item.out, i1], by simp [outToks, i2], by simp [viewsOf, i3],
+      fun pre => by simp [gapBytes, i4]⟩
+  | dir D d v w nl d2 hr ih =>
+    obtain ⟨i1, i2, i3, i4⟩ := ih
+    exact ⟨by simp [origToks, outToks, Item.orig, Item.out, i1], by simp [outToks, Item.out, i2], by simp [viewsOf, i3],
+      fun pre => by simp [gapBytes, i4]⟩
+
+theorem start_complete (toks : List Tok) (h : HeadValid toks) : start toks = .ok () ⟨0, toks⟩ := by
+  unfold start
+  cases toks with
+  | nil => rfl
+  | cons u r => simp [h u r rfl]
+
+theorem start_headValid {toks : List Tok} {u : Unit} {s : St} (h : start toks = .ok u s) : HeadValid toks := by
+  unfold start at h
+  cases toks with
+  | nil => exact HeadValid.nil
+  | cons t r =>
+    simp only at h
+    split at h
+    · cases h
+    · rename_i hx; exact HeadValid.cons (by simpa using hx)
+
+/-- **the print-then-parse round trip**: formatting a file that parses never hits a slice bound; the result parses
+again to directives with exactly the same fields; the text between the directives is the same; and formatting
+the result once more reproduces it. -/
+theorem roundtrip {path : String} {text : Bytes} {f : File} (h : parseText path text = .ok f) :
+    ∃ out f2, format text f = some out ∧ parseText path out = .ok f2 ∧
+      f2.directives.mapM (viewDirective out) = f.directives.mapM (viewDirective text) ∧
+      (f.directives.mapM (viewDirective text)).isSome = true ∧
+      gapsOf out 0 (f2.directives.map (·.range)) = gapsOf text 0 (f.directives.map (·.range)) ∧
+      format out f2 = some out := by
+  unfold parseText at h
+  split at h
+  · cases h
+  · rename_i u s0 hs
+    have e0 := start_ok hs
+    have hv0 := start_headValid hs
+    subst e0
+    split at h
+    · rename_i f' s' hp
+      injection h with h
+      subst h
+      unfold parseFile at hp
+      obtain ⟨items, i1, i2, i3⟩ := fileLoop_items hp (good_start text) hv0
+      simp only [List.reverse_nil, List.nil_append] at i2
+      simp only at i1 i3
+      -- the padding and the formatted text
+      let padding := padOf ((viewsOf items).map DirT.bytes)
+      have hG0 : Good text ⟨0, origToks items⟩ := by rw [← i1]; exact good_start text
+      obtain ⟨hfmt, hgaps⟩ := items_format (padding := padding) hG0 i3 0 (Nat.le_refl _)
+      simp only [slice_self, List.nil_append] at hfmt hgaps
+      have hformat : format text f' = some (flat (outToks padding items)) := by
+        simp only [format, i2, items_padding i3, Option.bind_eq_bind, Option.bind_some]
+        exact hfmt
+      -- the tokens of the formatted text
+      have hdec : decodeAll (flat (outToks padding items)) = outToks padding items :=
+        decodeAll_flat _ (items_canon padding i3)
+      obtain ⟨items2, f2, s2', hr, hrun, hdirs, hitems2⟩ := fileLoop_replay padding path text items 0 i3 0 [] 0
+      simp only [List.reverse_nil, List.nil_append] at hdirs
+      obtain ⟨r1, r2, r3, r4⟩ := hr.facts
+      have hG2 : Good (flat (outToks padding items)) ⟨0, outToks padding items⟩ := by
+        have := good_start (flat (outToks padding items))
+        rwa [hdec] at this
+      have i3' := hitems2 _ hG2
+      have hparse2 : parseText path (flat (outToks padding items)) = .ok f2 := by
+        unfold parseText
+        rw [hdec, start_complete _ (outToks_headValid padding i3)]
+        simp only [parseFile, hrun]
+      have hG2' : Good (flat (outToks padding items)) ⟨0, origToks items2⟩ := by rw [r1]; exact hG2
+      obtain ⟨hfmt2, hgaps2⟩ := items_format (padding := padding) hG2' i3' 0 (Nat.le_refl _)
+      simp only [slice_self, List.nil_append] at hfmt2 hgaps2
+      refine ⟨flat (outToks padding items), f2, hformat, hparse2, ?_, ?_, ?_, ?_⟩
+      · rw [hdirs, i2, items_views i3', items_views i3, r3]
+      · rw [i2, items_views i3]; rfl
+      · rw [hdirs, i2, hgaps2, hgaps, r4]
+      · have hpad : initPadding (flat (outToks padding items)) (dirsOf items2) = some padding := by
+          rw [items_padding i3', r3]
+        simp only [format, hdirs, hpad, Option.bind_eq_bind, Option.bind_some]
+        rw [hfmt2, r2]
+    · cases h
+
 end Knut.Syntax
